@@ -38,6 +38,8 @@ type schedBatch struct {
 	PerturbHits    int64             `json:"perturb_hits"`
 	MustNotStart   int64             `json:"must_not_start_jobs"`
 	DeadCtxJobs    int64             `json:"dead_ctx_jobs"`
+	BareCtxErrJobs int64             `json:"bare_ctx_err_jobs"`
+	NestedErrJobs  int64             `json:"nested_err_jobs"`
 	Failures       int64             `json:"failed_jobs"`
 	Goexits        int64             `json:"goexit_jobs"`
 	Blocked        int64             `json:"transitively_blocked_jobs"`
@@ -71,6 +73,8 @@ type schedAgg struct {
 	Perturb        int64
 	MustNotStart   int64
 	DeadCtxJobs    int64
+	BareCtxErrJobs int64
+	NestedErrJobs  int64
 	Failures       int64
 	Goexits        int64
 	Blocked        int64
@@ -201,6 +205,8 @@ func runSched(c *ctx, plan []famCount, race bool) *schedAgg {
 		agg.ExactStates += br.ExactStates
 		agg.MustNotStart += br.MustNotStart
 		agg.DeadCtxJobs += br.DeadCtxJobs
+		agg.BareCtxErrJobs += br.BareCtxErrJobs
+		agg.NestedErrJobs += br.NestedErrJobs
 		agg.Failures += br.Failures
 		agg.Goexits += br.Goexits
 		agg.Blocked += br.Blocked
@@ -296,6 +302,8 @@ func (a *schedAgg) coverage(rule string) map[string]interface{} {
 		"perturbations_injected":      a.Perturb,
 		"must_not_start_jobs_checked": a.MustNotStart,
 		"jobs_submitted_with_own_done_context_that_reached_a_worker": a.DeadCtxJobs,
+		"jobs_that_failed_with_a_bare_context_sentinel":              a.BareCtxErrJobs,
+		"jobs_that_failed_with_a_nested_schedulers_goexit_error":     a.NestedErrJobs,
 		"failed_jobs":                             a.Failures,
 		"goexit_jobs":                             a.Goexits,
 		"transitively_blocked_jobs":               a.Blocked,
